@@ -55,7 +55,11 @@ with has_type : pty -> pv -> Prop :=
 | t_tuple ts l : Forall2 has_type ts l -> has_type (PyTuple ts) (VTuple l)
 | t_dict k v m : (forall a b, In (a, b) m -> is_key a = true) -> (forall a b, In (a, b) m -> has_type v b) -> has_type (PyDict k v) (VDict m)
 | t_cls c fs : wf (VObj c fs) -> has_type (PyCls c) (VObj c fs)
-| t_union ms t o : In t ms -> has_type t o -> has_type (PyUnion ms) o.
+| t_union ms t o : In t ms -> has_type t o -> has_type (PyUnion ms) o
+(* at a union position that is not a plain Optional[...], a primitive EQUAL to a member of an enumeration alternative
+   (what the pass-through hooks return for Union[<enum>, ...]); it serialises by run-time class dispatch *)
+| t_union_raw ms e d x : In (PyEnum e) ms -> lookup_enum Sg e = Some d -> existsb (pv_eqb_prim x) (evals d) = true ->
+    not_optional_pair ms = true -> is_prim_v x = true -> has_type (PyUnion ms) x.
 End Den.
 
 (* ---------------------------------------------------------------- fuel monotonicity of unstructuring *)
@@ -236,7 +240,7 @@ Proof.
       * exists (S (S n)). cbn [Sem.unstr ustep]. change (ustep Sg (unstr n) (Some (PyCls c)) (VObj c fs) = Ok (den (VObj c fs))).
         apply obj_ok with (fds := fds); assumption.
   - (* unstr_typed *)
-    destruct H as [o W | n0 o W | | z | c z | s | c s | b | a b | l s Il | e x Px | t l HL | ts l HF | k v m HK HM | c fs W | ms t o It Ht].
+    destruct H as [o W | n0 o W | | z | c z | s | c s | b | a b | l s Il | e x Px | t l HL | ts l HF | k v m HK HM | c fs W | ms t o It Ht | ms e d x Ie Le Ex Np Px].
     + destruct (unstr_dyn o W) as [n U]. exists n. destruct n; [discriminate|]. exact U.
     + destruct (unstr_dyn o W) as [n U]. exists n. destruct n; [discriminate|]. exact U.
     + exists 1. reflexivity.
@@ -291,8 +295,13 @@ Proof.
         subst b. destruct (is_none a) eqn:Na.
         -- destruct o; try exact S1'. reflexivity.
         -- destruct Hn as [Hn|Hn]; [congruence|]. rewrite Hn. destruct t; try discriminate. inversion Ht; subst. reflexivity.
+    + (* raw primitive at a non-optional union: run-time class dispatch *)
+      exists 1. cbn [Sem.unstr].
+      destruct ms as [|a [|b [|c r]]]; try discriminate; try (destruct x; try discriminate; reflexivity).
+      cbn in Np. apply andb_true_iff in Np. destruct Np as [Na Nb]. apply negb_true_iff in Na. apply negb_true_iff in Nb.
+      cbn [ustep]. rewrite Na, Nb. destruct x; try discriminate; reflexivity.
   - (* dyn_of_typed *)
-    destruct H as [o W | n0 o W | | z | c z | s | c s | b | a b | l s Il | e x Px | t l HL | ts l HF | k v m HK HM | c fs W | ms t o It Ht].
+    destruct H as [o W | n0 o W | | z | c z | s | c s | b | a b | l s Il | e x Px | t l HL | ts l HF | k v m HK HM | c fs W | ms t o It Ht | ms e d x Ie Le Ex Np Px].
     + exact (unstr_dyn o W).
     + exact (unstr_dyn o W).
     + exists 1. reflexivity.
@@ -323,5 +332,89 @@ Proof.
       * intros [k' v'] Ikv. cbn [fst snd]. rewrite (key_of_key k' (HK k' v' Ikv)). cbn. pose proof (Hn (k', v') Ikv) as E0. cbn [snd] in E0. rewrite E0. reflexivity.
     + exact (unstr_dyn _ W).
     + exact (dyn_of_typed t o Ht).
+    + exists 1. destruct x; try discriminate; reflexivity.
 Qed.
 End Thm.
+
+(* ---------------------------------------------------------------- executable typing with soundness *)
+Section TypedB.
+Variable Sg : sigma.
+Fixpoint wf_b (n : nat) (o : pv) {struct n} : bool :=
+  match n with O => false | S n =>
+  match o with
+  | VNone | VBool _ | VInt _ | VFlt _ _ | VStr _ => true
+  | VList l | VTuple l => forallb (wf_b n) l
+  | VDict m => forallb (fun kv => is_key (fst kv) && wf_b n (snd kv)) m
+  | VEnum _ x => is_prim_v x
+  | VObj c fs => match lookup_cls Sg c with
+                 | Some fds => forallb (fun f => match assoc (fname f) fs with Some x => typed_b n (ftype f) x | None => false end) fds
+                 | None => false end
+  end end
+with typed_b (n : nat) (P : pty) (o : pv) {struct n} : bool :=
+  match n with O => false | S n =>
+  match P with
+  | PyAny | PyOpaque _ => wf_b n o
+  | PyNone => match o with VNone => true | _ => false end
+  | PyInt => match o with VInt _ | VEnum _ (VInt _) => true | _ => false end
+  | PyStr => match o with VStr _ | VEnum _ (VStr _) => true | _ => false end
+  | PyBool => match o with VBool _ => true | _ => false end
+  | PyFloat => match o with VFlt _ _ => true | _ => false end
+  | PyLit l => match o with VStr s => mem s l | _ => false end
+  | PyEnum e => match o with VEnum e' x => String.eqb e e' && is_prim_v x | _ => false end
+  | PySeq t => match o with VList l => forallb (typed_b n t) l | _ => false end
+  | PyTuple ts => match o with
+                  | VTuple l => Nat.eqb (length ts) (length l) && forallb (fun p => typed_b n (fst p) (snd p)) (combine ts l)
+                  | _ => false end
+  | PyDict k v => match o with VDict m => forallb (fun kv => is_key (fst kv) && typed_b n v (snd kv)) m | _ => false end
+  | PyCls c => match o with VObj c' fs => String.eqb c c' && wf_b n o | _ => false end
+  | PyUnion ms => existsb (fun t => typed_b n t o) ms
+                  || (not_optional_pair ms && is_prim_v o
+                      && existsb (fun t => match t with
+                                           | PyEnum e => match lookup_enum Sg e with Some d => existsb (pv_eqb_prim o) (evals d) | None => false end
+                                           | _ => false end) ms)
+  | PyFwd _ => false
+  end end.
+
+Lemma typed_b_sound : forall n, (forall o, wf_b n o = true -> wf Sg o) /\ (forall P o, typed_b n P o = true -> has_type Sg P o).
+Proof.
+  induction n as [|n [IHw IHt]]; [split; intros; discriminate|]. split.
+  - intros o H. cbn [wf_b] in H. destruct o; try constructor.
+    + intros x I. rewrite forallb_forall in H. auto.
+    + intros x I. rewrite forallb_forall in H. auto.
+    + intros k v I. rewrite forallb_forall in H. specialize (H _ I). apply andb_true_iff in H. exact (proj1 H).
+    + intros k v I. rewrite forallb_forall in H. specialize (H _ I). apply andb_true_iff in H. apply IHw. exact (proj2 H).
+    + destruct (lookup_cls Sg cls) as [fds|] eqn:L; [|discriminate]. econstructor; [exact L|].
+      intros f If. rewrite forallb_forall in H. specialize (H f If). destruct (assoc (fname f) fs) as [x|]; [|discriminate].
+      exists x. split; [reflexivity | apply IHt; exact H].
+    + exact H.
+  - intros P o H. cbn [typed_b] in H. destruct P.
+    + constructor. apply IHw. exact H.
+    + destruct o; try discriminate. constructor.
+    + destruct o; try discriminate; [constructor|]. destruct o; try discriminate. constructor.
+    + destruct o; try discriminate; [constructor|]. destruct o; try discriminate. constructor.
+    + destruct o; try discriminate. constructor.
+    + destruct o; try discriminate. constructor.
+    + apply orb_true_iff in H. destruct H as [H|H].
+      * apply existsb_exists in H. destruct H as [t [It Ht]]. econstructor; [exact It | apply IHt; exact Ht].
+      * apply andb_true_iff in H. destruct H as [H Hx]. apply andb_true_iff in H. destruct H as [Np Px].
+        apply existsb_exists in Hx. destruct Hx as [t [It Ht]]. destruct t; try discriminate.
+        destruct (lookup_enum Sg n0) as [d|] eqn:L; [|discriminate]. eapply t_union_raw; eauto.
+    + destruct o; try discriminate. constructor. intros x I. rewrite forallb_forall in H. apply IHt. auto.
+    + destruct o; try discriminate. constructor.
+      * intros a b I. rewrite forallb_forall in H. specialize (H _ I). apply andb_true_iff in H. exact (proj1 H).
+      * intros a b I. rewrite forallb_forall in H. specialize (H _ I). apply andb_true_iff in H. apply IHt. exact (proj2 H).
+    + destruct o; try discriminate. apply andb_true_iff in H. destruct H as [HL HF]. apply Nat.eqb_eq in HL. constructor.
+      revert l0 HL HF. induction l as [|t ts IH]; intros [|x xs] HL HF; try discriminate; [constructor|].
+      cbn in HF. apply andb_true_iff in HF. destruct HF as [H1 H2]. constructor; [apply IHt; exact H1|].
+      apply IH; [cbn in HL; lia | exact H2].
+    + destruct o; try discriminate. constructor. apply mem_in. exact H.
+    + destruct o; try discriminate. apply andb_true_iff in H. destruct H as [E Px]. apply String.eqb_eq in E. subst. constructor. exact Px.
+    + destruct o; try discriminate. apply andb_true_iff in H. destruct H as [E W]. apply String.eqb_eq in E. subst. constructor. apply IHw. exact W.
+    + constructor. apply IHw. exact H.
+    + discriminate.
+Qed.
+
+(* a value that passes the executable typing serialises successfully to its denotation *)
+Theorem typed_b_serialises n P o : typed_b n P o = true -> exists m, unstr Sg m (Some P) o = Ok (den Sg o).
+Proof. intros H. apply unstr_typed. exact (proj2 (typed_b_sound n) P o H). Qed.
+End TypedB.
